@@ -111,8 +111,12 @@ class Eval(Unary):
 
             # Lazy import to avoid a circular dependency between Operators and the
             # duckdb_transpiler.io package (which transitively imports files.sdmx_handler).
+            from vtlengine.duckdb_transpiler.Config.config import set_decimal_config
             from vtlengine.duckdb_transpiler.io._validation import build_create_table_sql
 
+            # The semantic pass runs before the session connection is configured: take the decimal
+            # configuration from the environment now, not from whatever the previous run left behind.
+            set_decimal_config()
             try:
                 for ds_name in dataset_names:
                     conn.execute(build_create_table_sql(ds_name, schemas[ds_name]))
